@@ -1605,3 +1605,115 @@ func c01r12(rc *core.RC) {
 		}
 	}
 }
+
+// ---- C01.R14 map keys are reached through the address of their slot ----
+
+// The map iterator hands the interpreters the address of the key slot, as it does for the value slot. For a key whose
+// type is a pointer (possible only for TextMarshaler keys) the key's first opcode must carry IndirectFlags like the
+// value's first opcode, so that the handler follows the slot to the pointer; and since a nil pointer key is the empty
+// string, not null, the key opcode is marked as a key.
+func c01r14(rc *core.RC) {
+	p := rc.P
+	fd := p.Func("encoder", "MapCode.ToOpcode")
+	key := "encoder.(*MapCode).ToOpcode"
+	if fd == nil || fd.Body == nil {
+		rc.Unknown(key+"/key-indirect", token.NoPos, "not found")
+		return
+	}
+	rc.Touch(key)
+	info := p.Info(fd)
+	// variables holding the key and value programs
+	progs := map[string]types.Object{}
+	ast.Inspect(fd.Body, func(m ast.Node) bool {
+		as, ok := m.(*ast.AssignStmt)
+		if !ok || len(as.Lhs) != 1 || len(as.Rhs) != 1 {
+			return true
+		}
+		c, isCall := core.Unparen(as.Rhs[0]).(*ast.CallExpr)
+		if !isCall {
+			return true
+		}
+		if sel, isSel := c.Fun.(*ast.SelectorExpr); isSel && sel.Sel.Name == "ToOpcode" {
+			if f := core.FieldOf(info, sel.X); f != nil {
+				progs[f.Name()] = core.ObjOf(info, as.Lhs[0])
+			}
+		}
+		return true
+	})
+	flagsOf := func(v types.Object) map[string]bool {
+		out := map[string]bool{}
+		ast.Inspect(fd.Body, func(m ast.Node) bool {
+			as, ok := m.(*ast.AssignStmt)
+			if !ok || as.Tok != token.OR_ASSIGN || len(as.Lhs) != 1 {
+				return true
+			}
+			sel, isSel := core.Unparen(as.Lhs[0]).(*ast.SelectorExpr)
+			if !isSel || sel.Sel.Name != "Flags" {
+				return true
+			}
+			c, isCall := core.Unparen(sel.X).(*ast.CallExpr)
+			if !isCall {
+				return true
+			}
+			fs, isFS := c.Fun.(*ast.SelectorExpr)
+			if !isFS || fs.Sel.Name != "First" || core.ObjOf(info, fs.X) != v {
+				return true
+			}
+			ast.Inspect(as.Rhs[0], func(k ast.Node) bool {
+				if id, isIdent := k.(*ast.Ident); isIdent {
+					out[id.Name] = true
+				}
+				return true
+			})
+			return true
+		})
+		return out
+	}
+	kv, vv := progs["key"], progs["value"]
+	if kv == nil || vv == nil {
+		rc.Unknown(key+"/key-indirect", fd.Pos(), "the key and value programs of the map were not found")
+		return
+	}
+	vf, kf := flagsOf(vv), flagsOf(kv)
+	rc.Check(vf["IndirectFlags"], key+"/value-indirect", fd.Pos(), "the first opcode of the value program carries IndirectFlags (the value is reached through its slot)")
+	rc.Check(kf["IndirectFlags"], key+"/key-indirect", fd.Pos(), "the first opcode of the key program carries IndirectFlags like the value's: without it a key of pointer type (map[*K]int with a pointer-receiver MarshalText on K) is marshalled from the address of the key slot, not from the pointer in it ({\"k:\":1} instead of {\"k:a\":1})")
+	rc.Check(kf["MapKeyFlags"], key+"/key-marked", fd.Pos(), "the first opcode of the key program is marked MapKeyFlags, so that the interpreters write a nil pointer key as \"\" and not as null (a bare null is not a member name)")
+	// every interpreter honours the mark where it dereferences a marshaler key
+	n := 0
+	for _, vm := range []string{"vm", "vm_indent", "vm_color", "vm_color_indent"} {
+		run := p.Func(vm, "Run")
+		if run == nil {
+			continue
+		}
+		rinfo := p.Info(run)
+		found := false
+		ast.Inspect(run.Body, func(m ast.Node) bool {
+			cc, ok := m.(*ast.CaseClause)
+			if !ok || found {
+				return true
+			}
+			isText := false
+			for _, l := range cc.List {
+				if strings.HasSuffix(core.Src(p.Fset, l), "OpMarshalText") {
+					isText = true
+				}
+			}
+			if !isText {
+				return true
+			}
+			ast.Inspect(cc, func(k ast.Node) bool {
+				if sel, isSel := k.(*ast.SelectorExpr); isSel && sel.Sel.Name == "MapKeyFlags" {
+					found = true
+				}
+				return true
+			})
+			_ = rinfo
+			return true
+		})
+		n++
+		rc.Check(found, vm+".Run/case OpMarshalText/nil-key-is-empty-string", run.Pos(), "the OpMarshalText handler tests MapKeyFlags for a nil pointer after following the slot")
+	}
+	if n < 4 {
+		rc.Unknown("vm*/Run", token.NoPos, "found %d interpreters", n)
+	}
+}
